@@ -56,7 +56,8 @@ ZeroTs(log) == [k \in 1..Len(log) |-> [log[k] EXCEPT !.ts = 0]]
 ZeroView(v) == Ops!NoTime(v)
 
 Modelled(c) == c.name \in {"new_task", "new_epic", "set", "claim_id", "claim", "sequence",
-                           "sequence_rm", "prune", "prune_dry", "compact", "plan", "list_ready"}
+                           "sequence_rm", "prune", "prune_dry", "compact", "plan", "list_ready",
+                           "list", "list_all", "list_epics", "list_epic", "show"}
 NormCmd(c) == IF c.name = "prune_dry" THEN [c EXCEPT !.name = "prune"] ELSE c
 
 \* some outcome the as-is spec allows has this exit status, these events, this reply
@@ -77,7 +78,7 @@ R_reply(o) ==
        /\ r.exit = 0
        /\ r.reply.id = o.reply.id /\ r.reply.state = o.reply.state
        /\ r.reply.claim = o.reply.claim /\ r.reply.status = o.reply.status
-       /\ (IF o.cmd.name = "list_ready" THEN ToSet(r.reply.ids) = ToSet(o.reply.ids)
+       /\ (IF o.cmd.name \in {"list_ready", "list", "list_all", "list_epics", "list_epic"} THEN ToSet(r.reply.ids) = ToSet(o.reply.ids)
                                          ELSE r.reply.ids = o.reply.ids)
        /\ r.reply.edges = o.reply.edges
        /\ r.reply.pruned = o.reply.pruned
@@ -106,7 +107,7 @@ ClauseNames ==
     "C12_function_of_log", "C12_reads_pure", "C12_history_grows", "C12_readable", "C12_consistent",
     "C14_ref", "C14_epics_flat", "C14_bad_refused", "C14_compact_keeps",
     "C15_progress", "C15_waits", "C15_claim",
-    "C16_one_value", "C16_truth",
+    "C16_one_value", "C16_truth", "C16_reads",
     "C20_only_grow", "C20_confined", "C20_live_only", "C20_faithful",
     "C01_serial", "C01_no_double", "C01_outcomes", "C01_winner_holds",
     "C02_serial", "C02_wholelines", "C02_nowait", "C02_busy_fast", "C07_final", "C13_reader",
@@ -175,6 +176,7 @@ Eval(n, o) ==
     [] n = "C15_claim" -> P!C15_claim(o)
     [] n = "C16_one_value" -> P!C16_one_value(o)
     [] n = "C16_truth" -> P!C16_truth(o)
+    [] n = "C16_reads" -> P!C16_reads(o)
     [] n = "C20_only_grow" -> P!C20_only_grow(o)
     [] n = "C20_confined" -> P!C20_confined(o)
     [] n = "C20_live_only" -> P!C20_live_only(o)
